@@ -34,7 +34,8 @@ def mv_records(rnd, thorough):
                 # (out= of another integer type: np.full(shape, logic.UNASSIGNED) is int64, stil.py passes such arrays)
                 dt = {'fresh-int64': np.int64, 'dirty-int32': np.int32}.get(out_mode, np.uint8)
                 o = np.zeros(bs, dtype=dt) if out_mode.startswith('fresh') else np.full(bs, rnd.choice([1, 2, 3, 5, 7]), dtype=dt)
-                r = fn(*arrays, out=o)
+                # the documented signatures are mv_xxx(x1, x2, out=None) / mv_not(x1, out=None): out may be given by position
+                r = fn(*arrays, o) if out_mode in ('dirty', 'fresh-int64') else fn(*arrays, out=o)
             r = np.asarray(r)
             rec['res'] = r.reshape(-1).astype(int).tolist()
             rec['arr'] = np.asarray(o).reshape(-1).astype(int).tolist()
